@@ -499,3 +499,55 @@ Theorem C02_keep_stale_filters_refuted_one_kind :
   /\ spec ex_stale_name (run ex_stale_name) = true.
 Proof. exact keep_refuted_one_kind. Qed.
 Print Assumptions C02_keep_stale_filters_refuted_one_kind.
+
+(* --------------------------------------------------------------------------------------------------------------
+   SOURCE TIE (what a run's command line does to the registry): CommandLineTestRunner::initializeTestRun as translated on every run into gen/Gen_HeapC12R.v -- both filter fields are set unconditionally from this run's arguments (so the selection of a run never depends on an earlier run's filters), run-ignored is only ever switched on; C02_Model.install is that effect
+   -------------------------------------------------------------------------------------------------------------- *)
+From CppUVerif Require gen.Gen_HeapC12R C12_RunnerTie C12_RunnerLinks.
+Local Open Scope Z_scope.
+Theorem C02_initializeTestRun_events :
+  forall (fuel : nat) (h : heap) (evs : list Gen_HeapC12R.rnev) (gf nf v vv c sep ri cr rt : Z)
+  (ps rs ms : list Z) (this : hptr),
+  Gen_HeapC12R.src_runner_initializeTestRun fuel h evs gf nf v vv c sep ri cr rt ps rs ms this =
+  FOk
+  (tt, h, evs ++ C12_RunnerTie.init_events gf nf v vv c sep ri cr rt, gf, nf, v, vv, c, sep, ri, cr, rt, ps,
+  rs, ms).
+Proof. exact C12_RunnerTie.initializeTestRun_events. Qed.
+Print Assumptions C02_initializeTestRun_events.
+
+Theorem C02_initializeTestRun_effect :
+  forall (s : C12_RunnerTie.switches) (gf nf v vv c sep ri cr rt : Z),
+  let s' := C12_RunnerTie.after s (C12_RunnerTie.init_events gf nf v vv c sep ri cr rt) in
+  C12_RunnerTie.s_gf s' = gf /\
+  C12_RunnerTie.s_nf s' = nf /\
+  C12_RunnerTie.s_rethrow s' = z2b rt /\
+  C12_RunnerTie.s_run_ignored s' = C12_RunnerTie.s_run_ignored s || z2b ri /\
+  C12_RunnerTie.s_separate s' = C12_RunnerTie.s_separate s || z2b sep /\
+  C12_RunnerTie.s_crash s' = C12_RunnerTie.s_crash s || z2b cr /\
+  C12_RunnerTie.s_color s' = C12_RunnerTie.s_color s || z2b c /\
+  C12_RunnerTie.s_verbosity s' =
+  (if z2b vv then Zpos 2 else if z2b v then Zpos 1 else C12_RunnerTie.s_verbosity s).
+Proof. exact C12_RunnerTie.initializeTestRun_effect. Qed.
+Print Assumptions C02_initializeTestRun_effect.
+
+Theorem C02_initializeTestRun_filters_and_rethrow_history_free :
+  forall (s1 s2 : C12_RunnerTie.switches) (gf nf v vv c sep ri cr rt : Z),
+  C12_RunnerTie.s_gf (C12_RunnerTie.after s1 (C12_RunnerTie.init_events gf nf v vv c sep ri cr rt)) =
+  C12_RunnerTie.s_gf (C12_RunnerTie.after s2 (C12_RunnerTie.init_events gf nf v vv c sep ri cr rt)) /\
+  C12_RunnerTie.s_nf (C12_RunnerTie.after s1 (C12_RunnerTie.init_events gf nf v vv c sep ri cr rt)) =
+  C12_RunnerTie.s_nf (C12_RunnerTie.after s2 (C12_RunnerTie.init_events gf nf v vv c sep ri cr rt)) /\
+  C12_RunnerTie.s_rethrow (C12_RunnerTie.after s1 (C12_RunnerTie.init_events gf nf v vv c sep ri cr rt)) =
+  C12_RunnerTie.s_rethrow (C12_RunnerTie.after s2 (C12_RunnerTie.init_events gf nf v vv c sep ri cr rt)).
+Proof. exact C12_RunnerTie.initializeTestRun_filters_and_rethrow_history_free. Qed.
+Print Assumptions C02_initializeTestRun_filters_and_rethrow_history_free.
+
+Theorem C02_install_is_the_translated_initializeTestRun :
+  forall (enc : list tfilter -> Z) (st : rstate) (c : runcfg) (s : C12_RunnerTie.switches)
+  (v vv col sep cr rt : Z),
+  let s' :=
+  C12_RunnerTie.after (C12_RunnerLinks.sw_of_rstate enc st s)
+  (C12_RunnerTie.init_events (enc (u_gf c)) (enc (u_nf c)) v vv col sep (b2z (u_ri c)) cr rt) in
+  C12_RunnerTie.s_gf s' = enc (st_gf (install st c)) /\
+  C12_RunnerTie.s_nf s' = enc (st_nf (install st c)) /\ C12_RunnerTie.s_run_ignored s' = st_ri (install st c).
+Proof. exact C12_RunnerLinks.install_is_the_translated_initializeTestRun. Qed.
+Print Assumptions C02_install_is_the_translated_initializeTestRun.
